@@ -5,6 +5,6 @@ tier=$1; shift
 cd /verif
 for s in "$@"; do
   for i in 01 02 03 04 05 06 07 08 09 10 11 12 13 14 15 16 17 18 19 20; do
-    VERIF_SEED=$s flock .build/sweep.lock ./check C$i --tier $tier 2>&1 | grep -v "^KNOWN-FINDING" | tail -1
+    VERIF_SEED=$s flock .build/sweep-C$i.lock ./check C$i --tier $tier 2>&1 | grep -v "^KNOWN-FINDING" | tail -1
   done
 done
